@@ -66,6 +66,14 @@ theorem cts_cbc_dec_spec (h : Implements c k) (iv : List Nat) (hiv : iv.length =
     (hlen : 2 * c.len ≤ C.length) : CTS_CBC.dec c iv .no C = .ok (Spec.Mode.cbcCtsInv k C) :=
   Proofs.Lemmas.ModeL.cts_cbc_dec_spec h iv hiv C hC hlen
 
+/-- at the level of the specification alone: ECB-CTS decryption and CBC-CS2 decryption (IV in front) undo the
+    corresponding encryptions, for every cipher function pair (E, D) = `k` that a model cipher implements — in particular
+    FIPS 197, FIPS 46-3, SP 800-67 and Serpent with every key (`lib_implements`) -/
+theorem cts_spec_inverse (h : Implements c k) :
+    (∀ M, Bytes M → c.len ≤ M.length → Spec.Mode.ecbCtsInv k (Spec.Mode.ecbCts k M) = M) ∧
+    (∀ iv M, IsBlock c.len iv → Bytes M → c.len ≤ M.length → Spec.Mode.cbcCtsInv k (Spec.Mode.cbcCts k iv M) = M) :=
+  ⟨fun M hM hl => ecbCtsInv_ecbCts h M hM hl, fun iv M hiv hM hl => cbcCtsInv_cbcCts h iv hiv M hM hl⟩
+
 /-! ### decryption inverts encryption (with an equally configured object in any padding state `st`) -/
 
 theorem ecb_dec_enc (h : Implements c k) (s : Spec.ModePad.Scheme) (M : List Nat) (hM : Bytes M) (hd : PadDom s c.len M)
